@@ -120,7 +120,7 @@ pub fn analyze(input_src: &str, output: &TokenStream) -> String {
                         let undeclared: Vec<String> = used.iter().filter(|l| !declared.contains(*l) && *l != "static" && *l != "_").cloned().collect();
                         let (trp, tra) = tr.unwrap_or_default();
                         s.push_str(&format!(
-                            "{{\"kind\":\"impl\",\"trait\":{},\"trait_args\":{},\"self_ty\":{},\"fns\":[{}],\"sigs\":[{}],\"assoc\":[{}],\"other_items\":{},\"undeclared_lifetimes\":[{}],\"declared_twice\":[{}],\"n_attrs\":{}}}",
+                            "{{\"kind\":\"impl\",\"trait\":{},\"trait_args\":{},\"self_ty\":{},\"fns\":[{}],\"sigs\":[{}],\"assoc\":[{}],\"other_items\":{},\"undeclared_lifetimes\":[{}],\"declared_twice\":[{}],\"where\":{},\"n_attrs\":{}}}",
                             esc_json(&trp), esc_json(&tra), esc_json(&self_ty),
                             fns.iter().map(|x| esc_json(x)).collect::<Vec<_>>().join(","),
                             sigs.iter().map(|x| esc_json(x)).collect::<Vec<_>>().join(","),
@@ -128,6 +128,7 @@ pub fn analyze(input_src: &str, output: &TokenStream) -> String {
                             other,
                             undeclared.iter().map(|x| esc_json(x)).collect::<Vec<_>>().join(","),
                             twice.iter().map(|x| esc_json(x)).collect::<Vec<_>>().join(","),
+                            esc_json(&im.generics.where_clause.as_ref().map(|w| w.predicates.to_token_stream().to_string()).unwrap_or_default()),
                             im.attrs.len()
                         ));
                     }
